@@ -829,6 +829,46 @@ class World:
                 attempt(lambda: assign(key, acc, last, py))
                 found = True
                 break
+            if kind == "struct-other-shape":
+                # an array update of different length that arrives INSIDE a whole-struct assignment: the value is an instance of the
+                # struct's own class that equals the current value except for ONE dynamically shaped array in it, which is shorter
+                # or longer (all other fields keep their values, so nothing may change whichever field the library looks at first)
+                c = [(acc, last, etx, cur) for acc, last, etx, cur in elems if etx["k"] == "struct"]
+                if tx["k"] == "struct":
+                    c.append(([], None, tx, self.shadow[key]))
+                c = [x_ for x_ in c if not X.has_refs(x_[2]) and not _unknown_cap(x_[2], x_[3]) and _dyn_arrays(x_[2], x_[3])]
+                if not c:
+                    continue
+                acc, last, etx, cur = rng.choice(c)
+                apath, atx, acur = rng.choice(_dyn_arrays(etx, cur))
+                ax = rng.choice([i_ for i_, d in enumerate(atx["sh"]) if d < 0])
+                sh2 = list(acur["sh"])
+                sh2[ax] = sh2[ax] - 1 if sh2[ax] >= 1 and rng.random() < 0.6 else sh2[ax] + rng.choice([1, 2])
+                if len(acur["it"]) == 0:
+                    continue
+                items2 = []
+                for idx_ in np.ndindex(*sh2):
+                    j_ = int(np.ravel_multi_index([min(q, d - 1) for q, d in zip(idx_, acur["sh"])], acur["sh"]))
+                    items2.append(acur["it"][j_])
+                inp2 = _fresh_boxes(etx, _set_deep(etx, cur, apath, {"sh": sh2, "it": items2}))
+                if _size_of(etx, inp2) == _size_of(etx, cur):
+                    continue        # a value of the very size of what it replaces is a FITTING assignment (DESIGN 1.5), whatever its inner distribution
+                try:
+                    py2 = _py_of(self.ns, etx, inp2)
+                except Exception:       # noqa: a value the harness cannot spell as python data
+                    continue
+                sk = self.new(etx, rng.randrange(len(self.bufs)), value=(inp2, py2), placement="default")
+                if sk is None:
+                    return False
+                srcobj = self.fetch(sk, "ctor")
+                detail = f"{key} {acc}{last} := instance of the same struct class whose array at {apath} has shape {sh2} for stored shape {acur['sh']}"
+                tag = ("shorter" if sh2[ax] < acur["sh"][ax] else "longer") + ("-whole" if last is None else "-part")
+                if last is None:
+                    attempt(lambda: self.fetch(key, rng.choice(["view", "ctor"]))._update(srcobj))
+                else:
+                    attempt(lambda: assign(key, acc, last, srcobj))
+                found = True
+                break
             if kind == "union-non-member":
                 c = [(acc, last, etx, cur) for acc, last, etx, cur in elems if etx["k"] == "uref"]
                 if not c:
@@ -1008,6 +1048,58 @@ class World:
                 self.handles[nk]["hybrid"] = hy
         self.record("pickle", group=group, exc="")
         return newkeys if ok else None
+
+
+def _dyn_arrays(tx, v, path=()):
+    """dynamically shaped arrays with items inside a value (no dereference, not through array items): (path of field numbers, tx, value)"""
+    out = []
+    if tx["k"] == "struct":
+        for i, f in enumerate(tx["f"]):
+            out += _dyn_arrays(f, v[i], path + (i,))
+    elif tx["k"] == "arr" and path and any(d < 0 for d in tx["sh"]) and v["it"]:
+        out.append((path, tx, v))
+    return out
+
+
+def _set_deep(tx, v, path, nv):
+    if not path:
+        return nv
+    return [(_set_deep(f, v[i], path[1:], nv) if i == path[0] else v[i]) for i, f in enumerate(tx["f"])]
+
+
+def _fresh_boxes(tx, v):
+    """the same value as the input of a NEW object: every string gets the box the library creates for its text"""
+    k = tx["k"]
+    if k == "str":
+        return X.strval(list(v), X.natural_cap(len(v)))
+    if k == "struct":
+        return [_fresh_boxes(f, v[i]) for i, f in enumerate(tx["f"])]
+    if k == "arr":
+        return {"sh": list(v["sh"]), "it": [_fresh_boxes(tx["it"], w) for w in v["it"]]}
+    return v
+
+
+def _py_of(ns, tx, v):
+    """python constructor data for a reference-free value in normal form"""
+    k = tx["k"]
+    if k == "sc":
+        return np.frombuffer(bytes(v), dtype=tx["np"].lower())[0]
+    if k == "str":
+        return bytes(v).decode("utf8")
+    if k == "struct":
+        return {ns.fname(i): _py_of(ns, f, v[i]) for i, f in enumerate(tx["f"])}
+    if k == "arr":
+        items = [_py_of(ns, tx["it"], w) for w in v["it"]]
+        sh = list(v["sh"])
+        if tx["it"]["k"] == "sc":
+            return np.array(items, dtype=tx["it"]["np"].lower()).reshape(sh)
+        if len(sh) == 1:
+            return items
+        o = np.empty(sh, dtype=object)
+        for i_, idx_ in enumerate(np.ndindex(*sh)):
+            o[idx_] = items[i_]
+        return o
+    raise TypeError("references have no python spelling here")
 
 
 def _form(py):
